@@ -217,6 +217,8 @@ def reject_cases():
         yield {'k': 'reject', 'what': 'tdea-key-string', 'n': kl}
     for form in ('k1-short', 'k2-short', 'k3-long', 'string+k2', 'k1,None,k3-short', 'k2-empty', 'k3-empty', 'k2-empty,k3', 'k1-empty', 'k1,None,k3-empty'):
         yield {'k': 'reject', 'what': 'tdea-mixed', 'form': form}
+    for form in ('bits16', 'bits120', 'ints>255', 'ints17'):
+        yield {'k': 'reject', 'what': 'aes-nonbytes-block', 'form': form}
     for kl in (33, 34, 40, 64):
         yield {'k': 'reject', 'what': 'serpent-key', 'n': kl}
     for bl in (0, 15, 17, 32):
@@ -385,6 +387,11 @@ def run_reject(case, ctx, rng):
         if f == 'k2-empty,k3': expect_refusal(lambda: TDEA(R(8), b'', R(8)).enc(R(8)), form=f)
         if f == 'k1-empty': expect_refusal(lambda: TDEA(b'').enc(R(8)), form=f)
         if f == 'k1,None,k3-empty': expect_refusal(lambda: TDEA(R(8), None, b'').enc(R(8)), form=f)
+    elif w == 'aes-nonbytes-block':
+        from crysp.bits import Bits
+        blk = {'bits16': Bits(0x1234, 16), 'bits120': Bits(R(15), bitorder=1), 'ints>255': [300] * 16, 'ints17': list(range(17))}[case['form']]
+        K = R(16)
+        expect_refusal(lambda: AES(K).enc(blk), form=case['form'], op='enc'); expect_refusal(lambda: AES(K).dec(blk), form=case['form'], op='dec')
     elif w == 'serpent-key': expect_refusal(lambda: Serpent(R(n)).enc(R(16)))
     elif w == 'serpent-block':
         K = R(16); B = R(n)
